@@ -165,9 +165,9 @@ Proof.
     + reflexivity.
     + split; [reflexivity|]. cbn [snd]. rewrite ccore_assign. apply Permutation_refl.
   - (* SLocal *) intros ns ls ats es l IHe Hs flv slv reg. cbn [tb_shp_stat] in Hs. apply andb_true_iff in Hs.
-    destruct Hs as [Hs He]. apply andb_true_iff in Hs. destruct Hs as [Hlen Hle].
-    apply Nat.eqb_eq in Hlen. apply Nat.leb_le in Hle.
-    exact (local_sim flv slv reg ns ls ats es l Hlen Hle (Forall_Pe es IHe He flv slv reg)).
+    destruct Hs as [Hlen He].
+    apply Nat.eqb_eq in Hlen.
+    exact (local_sim flv slv reg ns ls ats es l Hlen (Forall_Pe es IHe He flv slv reg)).
   - (* SLocalFunc *) intros n nl f l IHf Hs flv slv reg. cbn [tb_shp_stat] in Hs.
     assert (Hv : VR (mkV n nl (ref_of_exp f) false) ((n, nl), false)) by (repeat split; cbn; auto; discriminate).
     pose proof (SimS_seq _ _ _ _ _ _
